@@ -144,3 +144,31 @@ PROPS["C03"] = {"jobs": c03_jobs, "assumptions": COMMON_ASSUME + [
     "buffer size is a concrete shape parameter (0..header+8, status classes ..header+16 and header+40); the declared message length in the Packet family is symbolic",
     "the payload's vector is allocated with exactly the buffer size, so CBMC's pointer check on every library dereference decides 'reads only inside'"],
     "level": "bounded symbolic model checking of validator => accessor safety for all buffer contents per size"}
+
+
+# ------------------------------------------------------------------ decoder, single call (C02 family i)
+def dec_unwindset(n):
+    k = max((n - 8) // 16, 0) + 2
+    return {("Decoder6decode", None): k, ("_M_realloc_insert", None): k, ("_Hashtable", None): 4, ("_M_release", None): 3}
+
+
+def c02_jobs():
+    jobs = []
+    quick = {0, 7, 8, 23, 24, 25, 32, 40, 48}
+    for n in range(0, 57):
+        for ver in (1, 2, 0xFF):
+            tier = "quick" if (n in quick and ver == 1) or (n in (24, 40) and ver == 0xFF) else "thorough"
+            jobs.append(Job("dec.cpp", "h_dec_fresh", defs={"N": n, "VER": ver}, unwind=max(n, 8) * 4 + 20, unwindset=dec_unwindset(n), tier=tier,
+                            in_max=2 * n + 8, mem_gb=6, sym="every frame byte except the CMP version byte (incl. all length/type/flag fields); second fill of the buffer",
+                            outside="frames > 56 bytes"))
+    return jobs
+
+
+PROPS["C02"] = {"jobs": c02_jobs, "assumptions": COMMON_ASSUME + [
+    "frame size and the CMP version byte are concrete shape parameters; the input lives in a heap allocation of exactly that size",
+    "termination: the message loop carries an unwinding assertion with bound (N-8)/16+2"],
+    "level": "bounded symbolic model checking with CBMC pointer/bounds checks on every dereference of the real decode path"}
+
+PROPS["DBG"] = {"jobs": lambda: [Job("dec.cpp", "h_dec_fresh", defs={"N": 24, "VER": 1, "NOTAKE": 1}, unwind=100, unwindset=dec_unwindset(24), in_max=60, mem_gb=6),
+   Job("dec.cpp", "h_dec_fresh", defs={"N": 32, "VER": 1, "NOTAKE": 1}, unwind=100, unwindset=dec_unwindset(32), in_max=80, mem_gb=6),
+   Job("dec.cpp", "h_dec_fresh", defs={"N": 32, "VER": 1, "NOTAKE": 1}, unwind=100, unwindset=dec_unwindset(32), in_max=80, mem_gb=6, mem=False)], "assumptions": [], "level": "debug"}
